@@ -96,6 +96,8 @@ def p1(repo, res, canon):
 
 # ------------------------------------------------------------------------ P2
 def p2(repo, res, canon, us):
+    from ..norm import ProvCanon
+    pcanon = ProvCanon(repo)
     reported = set()
     n_moves = 0
     move_sites = set()
@@ -106,6 +108,14 @@ def p2(repo, res, canon, us):
         bulk_pop = []
         for ef in u.all_effects():
             pool = CU.pool_of(ef.loc)
+            if pool == 'available' and ef.kind == 'extend' and ef.value is not None:
+                # available.extend(<copy of idle[obs]>) is the bulk form of the release loop
+                src = pcanon.p(ef.value, ef.ev.frame)
+                if src.startswith(CU.IDLE_PREFIX + '['):
+                    if u.facts_out.get(('<empty>', src)) is True:
+                        continue          # extending by an empty reservation list: no effect
+                    per.setdefault('<all of %s>' % src, []).append(('append', 'available', ef))
+                    continue
             if pool and ef.kind in ('append', 'remove', 'insert', 'extend', 'pop', 'clear'):
                 key = ef.arg if ef.kind in ('append', 'remove') else '<%s>' % ef.kind
                 per.setdefault(key, []).append((ef.kind, pool, ef))
